@@ -60,3 +60,46 @@ let () =
         let mat f m = if m = [] then "_" else String.concat "|" (List.map (fun r -> String.concat "" (List.map f r)) m) in
         tok_of_rows rs ^ "#" ^ tok_of_rows prs ^ "#" ^ mat tok_of_bool less ^ "#" ^ mat sign cm
     | _ -> failwith "c10.run args")
+
+(* c10.rep <maxdef> <nullsfirst> <descending> <ops>      one repeated column
+     ops '/' separated:  W<values>  S<i>:<j>  P ;  values ';' separated  <rep>.<def>.<i<hex>|x<hex>|n>
+   answer: <logical rows>#<rows read from the page>#<less matrix>; rows '|' separated *)
+let rval_of_tok t =
+  match String.split_on_char '.' t with
+  | [r; d; v] ->
+      { Model.rv_rep = n_of_hex r; rv_def = n_of_hex d;
+        rv_val = (if v = "n" then None
+                  else if v.[0] = 'i' then Some (Model.VI (z_of_hex (String.sub v 1 (String.length v - 1))))
+                  else Some (Model.VB (bytes_of_tok v))) }
+  | _ -> failwith "rval"
+
+let rop_of_tok t =
+  if String.length t = 0 then failwith "op" else
+  let rest = String.sub t 1 (String.length t - 1) in
+  match t.[0] with
+  | 'W' -> Model.RWrite (if rest = "" then [] else List.map rval_of_tok (String.split_on_char ';' rest))
+  | 'S' -> (match String.split_on_char ':' rest with
+            | [i; j] -> Model.RSwap (nat_of_int (int_of_string i), nat_of_int (int_of_string j))
+            | _ -> failwith "swap")
+  | 'P' -> Model.RPage
+  | _ -> failwith "op kind"
+
+let tok_of_rval (v : Model.sval Model.rval) =
+  hex_of_n v.Model.rv_rep ^ "." ^ hex_of_n v.Model.rv_def ^ "." ^
+  (match v.Model.rv_val with
+   | None -> "n"
+   | Some (Model.VI z) -> "i" ^ hex_of_z z
+   | Some (Model.VB b) -> tok_of_bytes b)
+
+let tok_of_rrows rs =
+  if rs = [] then "_" else
+  String.concat "|" (List.map (fun r -> String.concat ";" (List.map tok_of_rval r)) rs)
+
+let () =
+  register "c10.rep" (function
+    | [md; nf; desc; ops] ->
+        let ops = if ops = "_" then [] else List.map rop_of_tok (String.split_on_char '/' ops) in
+        let ((rs, prs), less) = Model.c10_rep (n_of_hex md) (bool_of_tok nf) (bool_of_tok desc) ops in
+        let mat m = if m = [] then "_" else String.concat "|" (List.map (fun r -> String.concat "" (List.map tok_of_bool r)) m) in
+        tok_of_rrows rs ^ "#" ^ tok_of_rrows prs ^ "#" ^ mat less
+    | _ -> failwith "c10.rep args")
